@@ -395,7 +395,8 @@ pub fn run_case(c: &Case) -> CaseResult {
                 (false, None) => default.is_some(),
             };
             if allowed {
-                viol(&mut res, "valid-creation-rejected", format!("creation with start {}, offset {} s, requested {:?} was refused: {}", start0, offset0, r, e));
+                let tail: String = e.chars().rev().take(160).collect::<Vec<_>>().into_iter().rev().collect();
+                viol(&mut res, "valid-creation-rejected", format!("creation with start {}, offset {} s, requested {:?} was refused: ...{}", start0, offset0, r, tail));
             }
         }
     }
@@ -496,7 +497,9 @@ pub fn run_case(c: &Case) -> CaseResult {
                             }
                         }
                     };
-                    count(&mut res, "update_start_time", ok);
+                    if fam != Fam::Base {
+                        count(&mut res, "update_start_time", ok);
+                    }
                 }
             }
             Cop::NewCreator { who, to } => {
@@ -510,11 +513,20 @@ pub fn run_case(c: &Case) -> CaseResult {
                 let tt = resolve(*t, now, start, offset);
                 let coll = w.collection();
                 let msg = json!({"update_start_trading_time": tt.map(tsj)});
+                // "@minter": the call is made in the minter contract's name (cannot happen on a chain; it
+                // exercises the accepting branch of the collection's rule in isolation)
+                let who: &String = &(if who == "@minter" { w.minter().to_string() } else { who.clone() });
                 let r = chain::exec(w.app_mut(), who, &coll, &msg, &[]);
                 let ok = r.is_ok();
                 count(&mut res, "direct_on_collection", ok);
                 let after = w.trading();
                 let is_minter = *who == w.minter().to_string();
+                if is_minter {
+                    if !ok || after != tt {
+                        viol(&mut res, "collection-refuses-minter", format!("UpdateStartTradingTime({:?}) in the minter's name: ok={} collection shows {:?}", tt, ok, after));
+                    }
+                    expected = after;
+                }
                 if ok && !is_minter {
                     viol(&mut res, "collection-accepts-non-minter", format!("UpdateStartTradingTime({:?}) sent to the collection by {} (not its minter) was accepted", tt, who));
                     expected = after; // keep looking for independent violations
@@ -742,6 +754,11 @@ fn probe_history(fam: Fam, updatable: bool) -> Case {
         trading(a, T::None),
         Cop::Direct { who: a.into(), t: T::Now(0) },
     ];
+    if !matches!(fam, Fam::Vending(_)) {
+        ops.push(Cop::Direct { who: "@minter".into(), t: T::Now(9) });
+        ops.push(Cop::Direct { who: "@minter".into(), t: T::None });
+        ops.push(trading(a, T::None));
+    }
     if updatable {
         // keep the second collection type cheaper: drop the overflow block
         ops.retain(|o| !matches!(o, Cop::Offset { offset: Off::Abs(MUL_OVERFLOW) } | Cop::Offset { offset: Off::Abs(u64::MAX) }));
@@ -866,7 +883,10 @@ pub fn run(a: &Args) {
         for k in r.nontrivial {
             distinct.insert(k);
         }
-        for (key, what) in r.violations.iter().take(3) {
+        // violations of the safety sentences first, refusals of allowed requests (exactness of the bound) after
+        let mut vs = r.violations.clone();
+        vs.sort_by_key(|(k, _)| k.contains(":valid-"));
+        for (key, what) in vs.iter().take(3) {
             nviol += 1;
             if nviol <= 20 {
                 let body = format!(
